@@ -93,7 +93,14 @@ func topFromJS(v any) top {
 	}
 	return top{Kind: "node", N: fromJS(v)}
 }
-func (x top) key() string { return x.Kind + ":" + x.Sym + ":" + func() string { if x.N != nil { return x.N.key() }; return "" }() }
+func (x top) key() string {
+	return x.Kind + ":" + x.Sym + ":" + func() string {
+		if x.N != nil {
+			return x.N.key()
+		}
+		return ""
+	}()
+}
 func (x top) target() string {
 	switch x.Kind {
 	case "abs":
@@ -300,7 +307,14 @@ func checkTopPairs(c *lib.Ctx, tops []top, obs []topObs, negCap int) {
 			}
 		}
 	}
-	w := func(p pr) int { return len(tops[p.i].key()) + len(tops[p.j].key()) }
+	isFile := func(x top) bool { return x.Kind == "node" && x.N.Kind == 'f' }
+	w := func(p pr) int { // a link next to a regular file first, then the shortest
+		n := len(tops[p.i].key()) + len(tops[p.j].key())
+		if !isFile(tops[p.i]) && !isFile(tops[p.j]) {
+			n += 100000
+		}
+		return n
+	}
 	sort.SliceStable(coll, func(a, b int) bool { return w(coll[a]) < w(coll[b]) })
 	seenOf := map[string]int{}
 	for _, p := range coll {
@@ -714,67 +728,105 @@ func (m *memoRun) do(o mop) mres {
 	default:
 		panic("unknown memo op " + o.Op)
 	}
-	if o.Op != "hash" {
+	switch o.Op { // the last memo operation (other than Hash) that touched the entry of a key
+	case "movehash", "copyhash", "moveoutput":
+		m.last[kp], m.last[kq] = o.Op, o.Op
+	case "sethash":
 		m.last[kp] = o.Op
-		if o.Q != "" {
-			m.last[kq] = o.Op
-		}
 	}
 	res.coq = "(" + term + ", " + obs + ", " + lib.Bool(res.allowed) + ")"
 	return res
 }
 
-// runMemoSeq executes a sequence on one hasher; returns the Coq trace and the first oracle failure
-func runMemoSeq(c *lib.Ctx, ops []mop) (trace []string, followed bool) {
-	for _, k := range []string{"plz-out", "src"} {
-		os.RemoveAll(filepath.Join(root, k))
+// memoFailure: the first Hash (inside the protocol) whose answer is not the hash of what is at the path now
+type memoFailure struct {
+	at    int
+	class string
+	what  string
+}
+
+// runMemoSeq executes a sequence on one fresh long-lived hasher; returns the Coq trace, whether the
+// protocol was followed throughout, and the first oracle failure (nil if none)
+func runMemoSeq(c *lib.Ctx, ops []mop) (trace []string, followed bool, fail *memoFailure) {
+	clean := func() {
+		for _, k := range []string{"plz-out", "src"} {
+			os.RemoveAll(filepath.Join(root, k))
+		}
 	}
+	clean()
+	defer clean()
 	m := newMemoRun()
 	followed = true
 	for i, o := range ops {
 		lastEv := m.last[o.P]
 		r := m.do(o)
 		trace = append(trace, r.coq)
-		c.Hist("memo_op", o.Op)
+		if c != nil {
+			c.Hist("memo_op", o.Op)
+		}
 		if !r.isHash {
 			continue
 		}
 		if !r.allowed {
 			followed = false
 		}
-		if !followed {
-			c.Hist("memo_hash", "outside-protocol")
+		if !followed || fail != nil {
+			if c != nil {
+				c.Hist("memo_hash", "outside-protocol")
+			}
 			continue
 		}
 		// the oracle: the protocol was followed so far, so the recorded hash must be the hash of what is there now
-		c.Oracle()
+		if c != nil {
+			c.Oracle()
+		}
 		want, wok := fresh(o.P)
 		if lastEv == "" {
-			lastEv = "first-use"
+			lastEv = "rewrite"
 		}
 		switch {
 		case r.ok && wok && r.val != want:
-			c.Fail("stale-memoised-hash-after-"+lastEv, fmt.Sprintf("operation %d: Hash(%s, recalc=%v) returned the hash of %q, the path now holds %q", i, o.P, o.Recalc, r.val, want),
-				map[string]any{"kind": "memo", "ops": ops[:i+1]})
-			followed = false
+			fail = &memoFailure{i, "stale-memoised-hash-after-" + lastEv,
+				fmt.Sprintf("operation %d: Hash(%s, recalc=%v) returned the hash of %q, the path now holds %q", i, o.P, o.Recalc, r.val, want)}
 		case r.ok != wok:
-			c.Fail("memoised-hash-existence-after-"+lastEv, fmt.Sprintf("operation %d: Hash(%s) ok=%v, a fresh hasher ok=%v", i, o.P, r.ok, wok),
-				map[string]any{"kind": "memo", "ops": ops[:i+1]})
-			followed = false
+			fail = &memoFailure{i, "memoised-hash-for-missing-path-after-" + lastEv,
+				fmt.Sprintf("operation %d: Hash(%s, recalc=%v) ok=%v, a fresh hasher ok=%v", i, o.P, o.Recalc, r.ok, wok)}
 		default:
-			c.Hist("memo_hash", map[bool]string{true: "value", false: "error"}[r.ok])
+			if c != nil {
+				c.Hist("memo_hash", map[bool]string{true: "value", false: "error"}[r.ok])
+			}
 		}
 	}
-	for _, k := range []string{"plz-out", "src"} {
-		os.RemoveAll(filepath.Join(root, k))
+	return trace, followed, fail
+}
+
+// shrinkMemo: greedy one-pass removal of operations that are not needed for a failure of the same class
+func shrinkMemo(ops []mop, f *memoFailure) ([]mop, *memoFailure) {
+	cur, curF := append([]mop{}, ops[:f.at+1]...), f
+	for i := len(cur) - 2; i >= 0; i-- {
+		cand := append(append([]mop{}, cur[:i]...), cur[i+1:]...)
+		if _, _, g := runMemoSeq(nil, cand); g != nil && g.class == f.class {
+			cur, curF = cand[:g.at+1], g
+			if i > len(cur)-1 {
+				i = len(cur) - 1
+			}
+		}
 	}
-	return trace, followed
+	return cur, curF
+}
+
+func reportMemo(c *lib.Ctx, ops []mop, f *memoFailure) {
+	if f == nil {
+		return
+	}
+	small, g := shrinkMemo(ops, f)
+	c.Fail(g.class, g.what, map[string]any{"kind": "memo", "ops": small})
 }
 
 var memoTrees = []*node{file("v1"), file("v2"), file(""), file("\x02a"), link("a"), link("b"), dir("a", file("v1")), dir("a", file("v2")),
 	dir("a", file("v"), "b", file("1")), dir(), dir("l", link("a"), "f", file("x"))}
 
-func genMemoSeq(r *lib.Rng, wild bool) []mop {
+func genMemoSeq(r *lib.Rng) []mop {
 	var ops []mop
 	// shadow of what exists and a private copy of the protocol status, so that most sequences stay inside the protocol
 	have := map[string]*node{}
@@ -841,7 +893,6 @@ func genMemoSeq(r *lib.Rng, wild bool) []mop {
 			ops = append(ops, mop{Op: "hash", P: pk(), Recalc: true})
 		}
 	}
-	_ = wild
 	return ops
 }
 
@@ -857,17 +908,17 @@ func modelFreeStream(t *node) string {
 	return s
 }
 
-// keepInProtocol rewrites Hash(p, recalc=false) on a stale path into recalc=true, by a dry run of the tracker
 func runMemo(c *lib.Ctx) {
 	n := c.Scale(160, 2500)
 	nFollowed, nOps := 0, 0
 	for i := 0; i < n; i++ {
 		r := c.Rng.Fork()
-		ops := genMemoSeq(r, false)
+		ops := genMemoSeq(r)
 		if i%5 != 0 {
 			ops = keepInProtocol(ops)
 		}
-		trace, followed := runMemoSeq(c, ops)
+		trace, followed, fail := runMemoSeq(c, ops)
+		reportMemo(c, ops, fail)
 		if followed {
 			nFollowed++
 		}
@@ -877,6 +928,7 @@ func runMemo(c *lib.Ctx) {
 	c.Note("memo: %d operation sequences (%d operations) on one long-lived hasher each, %d inside the protocol throughout", n, nOps, nFollowed)
 }
 
+// keepInProtocol rewrites Hash(p, recalc=false) on a stale path into recalc=true, by a dry run of the tracker
 func keepInProtocol(ops []mop) []mop {
 	for _, k := range []string{"plz-out", "src"} {
 		os.RemoveAll(filepath.Join(root, k))
@@ -931,7 +983,8 @@ func replayFollowup(c *lib.Ctx, kind string, a, b, tree any, vs []variant, va, v
 			}
 		}
 	case "memo":
-		trace, followed := runMemoSeq(c, ops)
+		trace, followed, fail := runMemoSeq(c, ops)
+		reportMemo(c, ops, fail)
 		c.Case(lib.App("CMemo", lib.Str(root), lib.List(trace)), map[string]any{"kind": "memo", "ops": ops}, "m", followed)
 	default:
 		panic("unknown replay kind " + kind)
